@@ -438,6 +438,39 @@ fn handle_line(sess: &mut Option<Session>, scratch: &str, line: &str) -> String 
                 .collect();
             format!("STATE {}", parts.join("|"))
         }
+        "INVENTORY" => {
+            // every interned symbol that is bound, with its binding depth and (canonical) value
+            let names: Vec<String> = s
+                .ctx
+                .verif_obarray()
+                .into_iter()
+                .filter(|(_, sym)| sym.boundp())
+                .map(|(n, _)| n)
+                .collect();
+            let parts: Vec<String> = names.iter().map(|n| dump_symbol(&mut s.ctx, n)).collect();
+            if rest.trim() == "diff" {
+                // only what differs from a fresh context: new or changed entries, and `-name` for vanished ones
+                let mut fresh = Session::new(&s.scratch);
+                let fnames: Vec<String> = fresh
+                    .ctx
+                    .verif_obarray()
+                    .into_iter()
+                    .filter(|(_, sym)| sym.boundp())
+                    .map(|(n, _)| n)
+                    .collect();
+                let fparts: std::collections::HashSet<String> =
+                    fnames.iter().map(|n| dump_symbol(&mut fresh.ctx, n)).collect();
+                let mut out: Vec<String> = parts.into_iter().filter(|p| !fparts.contains(p)).collect();
+                let have: std::collections::HashSet<&String> = names.iter().collect();
+                for n in fnames.iter() {
+                    if !have.contains(n) {
+                        out.push(format!("-{}", n));
+                    }
+                }
+                return format!("INV {}", out.join("|"));
+            }
+            format!("INV {}", parts.join("|"))
+        }
         "API" => api::handle(s, rest),
         _ => "BADCMD".to_string(),
     }
